@@ -246,8 +246,12 @@ def run(spec, mode='sync', rec=None, chooser=None, keep_session=False, **core_kw
         for i, (op, a) in enumerate(zip(spec['ops'], args)):
             dev.cur_op = i
             rr.outcomes.append(run_op(s, op, a, tmp, i, rr))
+            if spec.get('stop_on_exc') and rr.outcomes[-1].kind == 'exc':
+                break
+            if spec.get('stop_after_fault') and s.core.fault.fired:
+                break          # the operation during which the injected fault struck is the last one: its outcome and its bytes are judged
         dev.cur_op = None
-        if spec.get('close', True):
+        if spec.get('close', True) and not (spec.get('stop_on_exc') and rr.outcomes[-1].kind == 'exc'):
             rr.outcomes.append(s.call('close'))
         rr.events = dev.rec.events
         rr.dev = dev
